@@ -91,7 +91,7 @@ class Z3Export:
                 self.cons.append(vr * ur - vi * ui == 1)
                 self.cons.append(vr * ui + vi * ur == 0)
                 r = (vr, vi)
-        elif k in ("Lg", "At"):
+        elif k in ("Lg", "At", "Cast"):
             r = (self.fresh(k), zero)
         else:
             raise alg.Unmodelled("z3 export of atom kind %s" % k)
